@@ -161,4 +161,20 @@ theorem C02_hits_sight_line (r : Run ℝ) (e0 d e : ℝ) (fuel sf : Nat) (hacc :
     nlinarith [mul_le_mul_of_nonneg_right hle hc]
   · cases hmiss
 
+/-- **C02_starts_on_sight_line** (full): the search the code runs starts at the look angle; every theorem above holds for
+    any start, hence for this one. -/
+theorem C02_starts_on_sight_line (r : Run ℝ) (d : ℝ) (fuel sf : Nat) :
+    zeroAngleOfShot r d fuel sf = zeroAngle r r.proj.lookAngle d fuel sf := rfl
+
+/-- **C02_independent_of_stored_zero** (full): for an un-canted shot the outcome of zeroing (the angle, or the error with its
+    payload) does not depend on the zero elevation the weapon stored before, nor on the shot's hold-over: two shots that
+    differ in nothing else are zeroed alike. -/
+theorem C02_independent_of_stored_zero (cfg : Config ℝ) (s : ShotRaw ℝ) (t : DragTable ℝ) (z' rel' d : ℝ) (fuel sf : Nat)
+    (hcant : s.cantAngle = 0) :
+    zeroAngleOfShot (Run.ofShot cfg { s with zeroElevation := z', relativeAngle := rel' } t) d fuel sf =
+      zeroAngleOfShot (Run.ofShot cfg s t) d fuel sf := by
+  have h : Run.ofShot cfg { s with zeroElevation := z', relativeAngle := rel' } t = Run.ofShot cfg s t := by
+    simp only [Run.ofShot, barrelAzimuthOf, hcant, fn_sin, Real.sin_zero, zero_mul]
+  rw [h]
+
 end BC.Props.C02
